@@ -51,6 +51,10 @@ func eventsString(es []event) string {
 	return b.String()
 }
 
+// TwinLabel, if set, turns every assertion with this label into assert(false)
+// (self-test: the label must be reported as violated and replay natively).
+var TwinLabel string
+
 // pathAbort unwinds the interpreter to the explorer: the path ends here.
 type pathAbort struct{ why string }
 
@@ -353,6 +357,9 @@ func (s *symCtx) assume(c *term) {
 func (s *symCtx) assert(c *term, prop, label string) {
 	if s.noFork {
 		panic(specBail{"assert"})
+	}
+	if TwinLabel != "" && label == TwinLabel {
+		c = s.tt.fls // reachability twin: this assertion must come back violated
 	}
 	s.asserts[label]++
 	if v, ok := s.known(c); ok {
